@@ -68,6 +68,8 @@ var policies = []string{"first", "round_robin", "ip_hash", "least_conn", "random
 
 type env struct {
 	ups      []*drive.Upstream
+	dyn      []*drive.Upstream // tagged echo upstreams on 127.0.0.1/2/3, same port (dial address with a placeholder)
+	dynPort  int
 	ovpnCfg  string
 	ovpnMsgs [][]byte
 	hellos   [][]byte
@@ -99,6 +101,14 @@ func (e *env) routes() string {
 			"handle": []any{map[string]any{"handler": "proxy", "upstreams": upstreams,
 				"load_balancing": map[string]any{"selection": pol}}}})
 	}
+	if len(e.dyn) > 0 {
+		// the upstream's dial address contains a placeholder whose value differs from connection to connection
+		rs = append(rs, map[string]any{
+			"match": []any{map[string]any{"regexp": map[string]any{"pattern": "^PXD[0-2]", "count": 4}}},
+			"handle": []any{
+				map[string]any{"handler": "verif_setrepl", "key": "verif.uphost", "n": 4, "values": dynHosts},
+				map[string]any{"handler": "proxy", "upstreams": []any{map[string]any{"dial": []string{fmt.Sprintf("tcp/{verif.uphost}:%d", e.dynPort)}}}}}})
+	}
 	if e.ovpnCfg != "" {
 		var cfg any
 		_ = jsonUnmarshal(e.ovpnCfg, &cfg)
@@ -117,15 +127,54 @@ type connCase struct {
 	sink   string // consumer that must read the stream ("" for proxy / fall-through)
 	proxy  bool
 	accept bool // falls through (wrapper: delivered to Accept; app: closed)
+	dynK   int  // pxd: which of the placeholder-addressed upstreams this connection names
 }
 
-var classNames = []string{"http", "tls", "rgx", "px0", "px1", "px2", "px3", "px4", "px5", "ovpn", "ssh", "none"}
+var dynHosts = []string{"127.0.0.1", "127.0.0.2", "127.0.0.3"}
+
+// startDyn starts three tagged echo servers on the same port of three loopback addresses.
+func (e *env) startDyn() {
+	for try := 0; try < 30 && len(e.dyn) == 0; try++ {
+		l0, err := net.Listen("tcp", dynHosts[0]+":0")
+		if err != nil {
+			return
+		}
+		port := l0.Addr().(*net.TCPAddr).Port
+		ls := []net.Listener{l0}
+		for _, h := range dynHosts[1:] {
+			l, err := net.Listen("tcp", fmt.Sprintf("%s:%d", h, port))
+			if err != nil {
+				break
+			}
+			ls = append(ls, l)
+		}
+		if len(ls) != len(dynHosts) {
+			for _, l := range ls {
+				_ = l.Close()
+			}
+			continue
+		}
+		e.dynPort = port
+		for k, l := range ls {
+			tag := byte('A' + k)
+			e.dyn = append(e.dyn, drive.NewUpstreamOn(l, func(uc *drive.UpConn) {
+				_, _ = uc.Conn.Write([]byte{tag})
+				drive.EchoHandler(uc)
+			}))
+		}
+	}
+}
+
+var classNames = []string{"http", "tls", "rgx", "px0", "px1", "px2", "px3", "px4", "px5", "ovpn", "ssh", "none", "pxd", "pxd"}
 
 func (e *env) makeCase(seed int64, shard, n int, level string) *connCase {
 	r := fw.Rand(seed, "c08case", shard, n, level)
 	class := classNames[r.Intn(len(classNames))]
 	if class == "ovpn" && len(e.ovpnMsgs) == 0 {
 		class = "ssh"
+	}
+	if class == "pxd" && len(e.dyn) == 0 {
+		class = "px0"
 	}
 	id := fmt.Sprintf("c08-%s-%d-%d", level, shard, n)
 	size := 1 + r.Intn(5000)
@@ -142,6 +191,9 @@ func (e *env) makeCase(seed int64, shard, n int, level string) *connCase {
 		cc.wire, cc.sink = append(append([]byte(nil), e.hellos[r.Intn(len(e.hellos))]...), body...), "tls"
 	case class == "rgx":
 		cc.wire, cc.sink = append([]byte(fmt.Sprintf("RGX%d", r.Intn(10))), body...), "rgx"
+	case class == "pxd":
+		cc.dynK = r.Intn(len(dynHosts))
+		cc.wire, cc.proxy = append([]byte(fmt.Sprintf("PXD%d", cc.dynK)), body...), true
 	case strings.HasPrefix(class, "px"):
 		cc.wire, cc.proxy = append([]byte("PX"+class[2:]), body...), true
 	case class == "ovpn":
@@ -172,6 +224,11 @@ func run(c *fw.Ctx) {
 		defer up.Close()
 		e.ups = append(e.ups, up)
 	}
+	e.startDyn()
+	for _, up := range e.dyn {
+		defer up.Close()
+	}
+	c.Obs("placeholder_addressed_upstreams", int64(len(e.dyn)))
 	for _, name := range []string{"a.example.com", "b.example.org", "", "c.verif.test"} {
 		e.hellos = append(e.hellos, gen.ClientHello(name, []string{"h2"}))
 	}
@@ -248,6 +305,11 @@ func runLevel(c *fw.Ctx, e *env, level string, total, workers int) {
 					accepted[id] = b
 					accMu.Unlock()
 					_ = cn.Close()
+					if len(b)%2 == 0 {
+						// net/http closes a connection from more than one place (serving goroutine, Server.Close,
+						// HTTP/2 teardown): Close on an accepted connection must be idempotent
+						_ = cn.Close()
+					}
 				}()
 			}
 		}()
@@ -366,7 +428,17 @@ func runLevel(c *fw.Ctx, e *env, level string, total, workers int) {
 				}
 			}
 		}
-		if cc.proxy {
+		if cc.class == "pxd" {
+			// the upstream is named by this connection's own placeholder value: its tag comes first, then the echo
+			// of what follows the four bytes the placeholder handler consumed
+			want := append([]byte{byte('A' + cc.dynK)}, cc.wire[4:]...)
+			switch {
+			case len(res.echo) > 0 && res.echo[0] != want[0] && res.echo[0] >= 'A' && res.echo[0] < byte('A'+len(dynHosts)):
+				report("wrong-upstream", fmt.Sprintf("the connection's own placeholder value names upstream %s, it was connected to upstream %s (the address another connection asked for)", dynHosts[cc.dynK], dynHosts[res.echo[0]-'A']))
+			case oracle.Diff(res.echo, want) != "":
+				report("proxy-echo "+classify(res.echo, want), "bytes relayed to the placeholder-addressed echo upstream and back differ from this connection's stream: "+oracle.Diff(res.echo, want))
+			}
+		} else if cc.proxy {
 			if d := oracle.Diff(res.echo, cc.wire); d != "" {
 				report("proxy-echo "+classify(res.echo, cc.wire), "bytes relayed to an echo upstream and back differ from this connection's stream: "+d)
 			}
@@ -404,6 +476,9 @@ func runLevel(c *fw.Ctx, e *env, level string, total, workers int) {
 }
 
 func classGroup(class string) string {
+	if class == "pxd" {
+		return "proxy/placeholder-address"
+	}
 	if strings.HasPrefix(class, "px") {
 		i := int(class[2] - '0')
 		return "proxy/" + policies[i]
